@@ -28,6 +28,14 @@ from harness.util import import_df, attempt
 df = import_df()
 
 TMP = tempfile.mkdtemp(prefix="c10_")
+
+# The three limits of the format (spec "assumptions"; Coq witnesses C10_roundtrip_*_refuted) are probed
+# with cases whose model prediction is compared in Coq, but the oracle does not flag them.  If the
+# maintainer decides they are defects of the implementation rather than limits of the format, set this
+# to True: the probes are then flagged under the tags below (known_findings.json ids).
+LIMITS_ARE_FINDINGS = False
+LIMIT_TAGS = {"unit-is-the-marker": "C10-unit-marker", "int-beyond-2**53": "C10-int-beyond-2p53",
+              "labels-absent-on-vector": "C10-absent-labels"}
 TWO53 = 2 ** 53
 
 
@@ -218,7 +226,9 @@ def view_file(path):
             ra = mesh["region"].attrs
             reg = dict(ck="f" if "f" in (ckind(ra["pmin"]), ckind(ra["pmax"])) else ckind(ra["pmin"]),
                        pmin=qlist(ra["pmin"]), pmax=qlist(ra["pmax"]),
-                       dims=[_txt(d) for d in np.atleast_1d(ra["dims"]).tolist()], ndim=int(ra["ndim"]),
+                       dims=[_txt(d) for d in np.atleast_1d(ra["dims"]).tolist()],
+                       ndim=int(ra["ndim"]) if "ndim" in ra else len(ra["pmin"]),   # redundant entry
+                      
                        units=[_txt(u) for u in np.atleast_1d(ra["units"]).tolist()], tf=S(ra["tolerance_factor"]))
             subs = None
             if "subregions" in mesh:
@@ -353,6 +363,8 @@ def gen_round(rng, tier, force=None):
         n = [rng.randint(1, 4 if tier == "quick" else 6) for _ in range(nd)]
         if rng.random() < 0.5:
             n = [k + (k % 2) if rng.random() < 0.7 else k for k in n]
+        if force.get("frac"):
+            n = [2 * rng.randint(1, 2) for _ in range(nd)]
         if math.prod(n) <= cap:
             break
     ck = force.get("ck") or rng.choice(["i", "f"])
@@ -365,6 +377,8 @@ def gen_round(rng, tier, force=None):
             c = F(rng.randint(1, 5), rng.choice(dens))
             if rng.random() < 0.6:
                 c = F(rng.randint(1, 5))
+            if force.get("frac"):
+                c = F(rng.choice([1, 3, 5]), 2)         # n even: integral edges, half-integral cell faces
             cell.append(c)
             lo.append(F(rng.randint(-10 ** 12, 10 ** 12) if big else rng.randint(-20, 20)))
     else:
@@ -397,18 +411,26 @@ def gen_round(rng, tier, force=None):
         if rng.random() < 0.3:
             bc = bc.upper()
     # subregions
-    nsub = force.get("nsub", rng.choice([0, 0, 1, 2, 2, 3]))
+    scks = force.get("scks")
+    nsub = len(scks) if scks else force.get("nsub", rng.choice([0, 0, 1, 2, 2, 3]))
     subs = []
     names = rng.sample(SNAMES, nsub)
-    for name in names:
+    for j, name in enumerate(names):
+        sck = scks[j] if scks else (force.get("sck") or rng.choice(["i", "f", "f"]))
         i0, i1 = [], []
         for k in n:
             a = rng.randint(0, k - 1)
             b = rng.randint(a + 1, k)
+            if force.get("frac") and sck == "i":           # integer-typed: whole cells pairs only
+                a = 2 * rng.randint(0, k // 2 - 1)
+                b = 2 * rng.randint(a // 2 + 1, k // 2)
             i0.append(a)
             i1.append(b)
-        subs.append(dict(name=name, ck=force.get("sck") or rng.choice(["i", "f", "f"]), i0=i0, i1=i1,
-                         flip=[rng.random() < 0.3 for _ in range(nd)]))
+        if force.get("frac") and sck == "f":               # float-typed: at least one half-integral corner
+            ax = rng.randrange(nd)
+            i0[ax] = 1
+            i1[ax] = rng.randint(2, n[ax])
+        subs.append(dict(name=name, ck=sck, i0=i0, i1=i1, flip=[rng.random() < 0.3 for _ in range(nd)]))
     nvdim = rng.choice([1, 1, 1, 2, 3, 3, 3, 4, 5, 6, 11])
     if math.prod(n) * nvdim > 4 * cap:
         nvdim = 1
@@ -421,7 +443,7 @@ def gen_round(rng, tier, force=None):
     return dict(kind="round", nd=nd, n=n, ck=ck, regime=regime, lo=[S(x) for x in lo], cell=[S(x) for x in cell],
                 flip=flip, dims=dims, units=units, tf=tf, bc=bc, subs=subs, nvdim=nvdim, vdims=vdims, unit=unit,
                 dtype=dtype, vseed=rng.randrange(2 ** 31), vmode=rng.choice(["plain", "plain", "bits", "special"]),
-                valid=valid, limit=None)
+                valid=valid, limit=[])
 
 
 def rand_float(r, mode, width=64):
@@ -457,7 +479,7 @@ def make_values(rc, shape):
             info = np.iinfo(dt)
             lo, hi = max(info.min, -TWO53), min(info.max, TWO53)
             pool = [lo, hi, 0, 1, -1 if info.min < 0 else 1, hi - 1]
-            if rc.get("limit") == "int-beyond-2**53":
+            if "int-beyond-2**53" in (rc.get("limit") or []):
                 pool = [TWO53 + 1, TWO53 + 3, info.max, info.max - 1, min(info.max, 2 ** 62 + 1), TWO53 + 2]
                 if info.min < 0:
                     pool += [-TWO53 - 1, info.min + 1]
@@ -551,18 +573,21 @@ def generate(rng, tier):
     tries = 0
     # the four corner-type combinations, with fractional subregion corners where the cell allows
     forced = [dict(ck=a, sck=b, nsub=k) for a in "if" for b in "if" for k in (1, 2, 3)]
+    # integer-typed region, integer- and float-typed subregions in every order, the float-typed ones
+    # with fractional corners (the table must be typed after ALL corners, not the first ones)
+    forced += [dict(ck=a, scks=list(p), frac=True) for a in "if"
+               for p in ("f", "if", "fi", "iif", "ifi", "fii", "iff", "ii")]
     while want > 0 and tries < 20 * nround:
         tries += 1
         force = forced[tries % len(forced)] if tries % 3 == 0 else None
         rc = gen_round(rng, tier, force)
         if rc["unit"] == "None":
-            rc["limit"] = "unit-is-the-marker"
+            rc["limit"].append("unit-is-the-marker")
         if rc["vdims"] is None and rc["nvdim"] > 1 and rng.random() < 0.04 and rc["nvdim"] != rc["nd"]:
             rc["vdims"] = []
-            rc["limit"] = "labels-absent-on-vector"
-        if np.dtype(rc["dtype"]).kind in "iu" and np.dtype(rc["dtype"]).itemsize == 8 and rng.random() < 0.3 \
-                and rc["limit"] is None:
-            rc["limit"] = "int-beyond-2**53"
+            rc["limit"].append("labels-absent-on-vector")
+        if np.dtype(rc["dtype"]).kind in "iu" and np.dtype(rc["dtype"]).itemsize == 8 and rng.random() < 0.3:
+            rc["limit"].append("int-beyond-2**53")
         if buildable(rc):
             cases.append(rc)
             want -= 1
@@ -638,12 +663,12 @@ def same_num(a, b):
 
 def oracle_round(rc, s0, s1, f, g_, s0_after):
     bad = []
-    limit = rc.get("limit")
+    limit = [] if LIMITS_ARE_FINDINGS else (rc.get("limit") or [])
     if s0_after != s0:
         bad.append("writing-changed-the-field")
     with np.errstate(all="ignore"):
         self_equal = bool(f == f)
-        if self_equal and not bool(g_ == f) and limit != "int-beyond-2**53":
+        if self_equal and not bool(g_ == f) and "int-beyond-2**53" not in limit:
             bad.append("read-back-field-not-equal")
     for key, clause in [("pmin", "region-pmin"), ("pmax", "region-pmax"), ("ck", "region-corner-type"),
                         ("dims", "dims"), ("units", "units"), ("tf", "tolerance-factor"), ("n", "n"),
@@ -658,15 +683,15 @@ def oracle_round(rc, s0, s1, f, g_, s0_after):
                 bad.append("subregion-corners")
             if (a["dims"], a["units"], a["tf"]) != (b["dims"], b["units"], b["tf"]):
                 bad.append("subregion-attributes")
-    if s0["vdims"] != s1["vdims"] and limit != "labels-absent-on-vector":
+    if s0["vdims"] != s1["vdims"] and "labels-absent-on-vector" not in limit:
         bad.append("component-labels")
-    if s0["unit"] != s1["unit"] and limit != "unit-is-the-marker":
+    if s0["unit"] != s1["unit"] and "unit-is-the-marker" not in limit:
         bad.append("unit")
     if (s0["dk"] == "c") != (s1["dk"] == "c"):
         bad.append("real-complex-kind")
     if s0["shape"] != s1["shape"]:
         bad.append("array-shape")
-    elif limit != "int-beyond-2**53":
+    elif "int-beyond-2**53" not in limit:
         if any(not same_num(a, b) for a, b in zip(s0["vals"], s1["vals"])):
             bad.append("values")
         elif f.array.dtype == g_.array.dtype and f.array.tobytes() != g_.array.tobytes():
@@ -700,7 +725,7 @@ def size_of(st):
 
 
 def run_round(rc):
-    rec = dict(kind="round", case=rc, oracle=[], tags=[], coq=None)
+    rec = dict(kind="round", case=rc, oracle=[], tags=[], coq="")
     f = build(rc)
     s0 = state_of(f)
     path = tmpname(".h5" if rc["vseed"] % 3 else ".hdf5")
@@ -717,11 +742,11 @@ def run_round(rc):
         return rec
     view = view_file(path)
     stb, back = read_back(path)
-    kinds = "".join([s0["ck"]] + sorted(s["ck"] for s in s0["subs"]))
+    kinds = "".join([s0["ck"], "-"] + [s["ck"] for s in s0["subs"]])
     frac_sub = any(F(x).denominator != 1 for s in s0["subs"] for x in s["pmin"] + s["pmax"])
     key = (f"round/{len(s0['n'])}d/{kinds}/{'frac' if frac_sub else 'intg'}/{s0['dtype']}/nv{min(s0['nvdim'], 4)}/"
            f"{'lab' if rc['vdims'] else 'nolab'}/{'unit' if s0['unit'] is not None else 'nounit'}/"
-           f"{rc['valid']}/{rc['regime']}/{rc.get('limit')}")
+           f"{rc['valid']}/{rc['regime']}/{'+'.join(rc.get('limit') or [])}")
     if stb != "ok":
         rec.update(obs=dict(state=brief, read_error=back), oracle=["read-failed"], key=key + "/read-failed",
                    size=size_of(s0))
@@ -737,7 +762,8 @@ def run_round(rc):
                key=key, size=size_of(s0),
                coq=f"CRound {c_state(s0)} {g.opt(view, c_view)} (Some {c_state(s1)})")
     if rc.get("limit"):
-        rec["obs"]["limit_probe"] = rc["limit"]
+        rec["obs"]["limit_probe"] = "+".join(rc["limit"])
+        rec["tags"] = [LIMIT_TAGS[x] for x in rc["limit"]]
     return rec
 
 
@@ -825,7 +851,7 @@ def apply_defect(v, d, rng):
 
 
 def run_foreign(rc):
-    rec = dict(kind="foreign", case=rc, oracle=[], tags=[], coq=None)
+    rec = dict(kind="foreign", case=rc, oracle=[], tags=[], coq="")
     f = build(rc)
     s0 = state_of(f)
     v = file_of_state(json.loads(json.dumps(s0)))
@@ -859,7 +885,7 @@ def run_foreign(rc):
             # a well-formed current-layout file must come back as the state it describes
             class _O:
                 pass
-            o = oracle_round(dict(limit=None), s0, s1, f, g_, s0)
+            o = oracle_round(dict(limit=[]), s0, s1, f, g_, s0)
             rec["oracle"] = [c for c in o if c not in ("values-bit-pattern",)]
     else:
         coq_back = "None"
@@ -870,7 +896,7 @@ def run_foreign(rc):
 
 
 def run_legacy(rc):
-    rec = dict(kind="legacy", case=rc, oracle=[], tags=[], coq=None)
+    rec = dict(kind="legacy", case=rc, oracle=[], tags=[], coq="")
     nd, n = rc["nd"], list(rc["n"])
     r = random.Random(rc["vseed"])
     dim = rc["dim"]
@@ -950,7 +976,7 @@ def run_legacy(rc):
 
 def run_sample(rc):
     """the current-layout sample file shipped with the repository's tests"""
-    rec = dict(kind="sample", case=rc, oracle=[], tags=[], coq=None, key="sample", size=1)
+    rec = dict(kind="sample", case=rc, oracle=[], tags=[], coq="", key="sample", size=1)
     path = os.path.join(os.path.dirname(df.__file__), "tests", "test_sample", "hdf5-file.hdf5")
     if not os.path.exists(path):
         rec.update(obs=dict(present=False), nontrivial=False)
